@@ -301,9 +301,10 @@ class TracebackInfo:
             if tb is None:
                 raise ValueError('no tb set and no exception being handled')
         if limit is None:
-            limit = getattr(sys, 'tracebacklimit', 1000)
+            # like the traceback module: no limit unless one is configured
+            limit = getattr(sys, 'tracebacklimit', None)
         n = 0
-        while tb is not None and n < limit:
+        while tb is not None and (limit is None or n < limit):
             item = cls.callpoint_type.from_tb(tb)
             ret.append(item)
             tb = tb.tb_next
